@@ -320,14 +320,19 @@ def oracle_C26(run):
         if is_recv(op) and res(obs)[0] == 'ok':
             import h2.events as EV
             pings = [e.ping_data for e in obs['raw_events'] if isinstance(e, EV.PingReceived)]
-            fr = frames_of(obs.get('appended'))
+            # PING frames are picked out of the raw frame sequence: whether the *other* frames of the output are
+            # well-formed is C02's business, not this property's (round 2: an RST_STREAM on stream 0, emitted for a
+            # PUSH_PROMISE promising stream 0 on a locally reset parent, made the full decoder give up and this
+            # oracle cried "undecodable-output" although no PING was involved)
+            fr = raw_frames(obs.get('appended') or b'')
             if fr is None:
-                if 'ConnectionTerminated' in ev_kinds(obs):
+                if 'ConnectionTerminated' in ev_kinds(obs) or not pings:
                     continue
-                out.append(fail('undecodable-output', i))
+                out.append(fail('ping-answer-not-identifiable-in-output', i, pings=[p.hex() for p in pings]))
                 continue
-            acks = [f['data'] for f in fr if f['type'] == wire.PING and f['ack']]
-            plain = [f for f in fr if f['type'] == wire.PING and not f['ack']]
+            pf = [f for f in fr if f['type'] == wire.PING and f['sid'] == 0 and len(f['payload']) == 8]
+            acks = [f['payload'] for f in pf if f['flags'] & 1]
+            plain = [f for f in fr if f['type'] == wire.PING and not (f in pf and f['flags'] & 1)]
             if 'ConnectionTerminated' in ev_kinds(obs):
                 continue
             if plain or acks != pings:
